@@ -27,7 +27,7 @@ for d in sorted(glob.glob(os.path.join(V, "seeded", "*"))):
     caught = [c for c, r in ch.items() if r.get("caught")]
     missed = [c for c, r in ch.items() if not r.get("caught")]
     rk = "; ".join("%s (%s)" % (c, r.get("strengthened_by", "")) for c, r in m.get("recheck", {}).items() if r.get("caught"))
-    out.append("| %s%s | %s | %s | %s | %s | %s |" % (os.path.basename(d), "" if m.get("confirmed") else " (not confirmed)", m.get("property", ""),
+    out.append("| %s%s | %s | %s | %s | %s | %s |" % (os.path.basename(d), ("" if m.get("confirmed") else " (not confirmed)") + (" (obsolete on HEAD)" if m.get("obsolete_on_head") else ""), m.get("property", ""),
                str(m.get("needs", m.get("summary", ""))).replace("|", "/").replace("\n", " ")[:260], ", ".join(caught), ", ".join(missed) or "-", rk or "-"))
 text = "\n".join(out) + "\n"
 p = os.path.join(V, "DESIGN.md")
